@@ -18,6 +18,7 @@ from harness.common import Reporter, Tooling
 
 class Ctx:
     def __init__(self, pid, tier, seed):
+        self.deepen = False
         self.pid = pid
         self.tier = tier
         self.seed = seed
@@ -116,6 +117,39 @@ def run_property(pid, tier, seed):
                 ctx.proof_broken.append({"what": "axiom audit failed", "theorem": n, "axioms": a})
             thm_info.append({"name": n, "module": m, "checked": good, "axioms": a,
                              "partial": n.endswith("_partial")})
+    # 3a. function-level tie: the agreement theorems between the functions TRANSLATED from the Python source on this
+    # run (Gen/Py*.lean, harness/translate_layerb.py) and the hand-written model functions.  A broken agreement is a
+    # broken proof obligation in the thorough tier; in the quick tier (the check run on every change, where a harmless
+    # rewrite of one of these functions must not raise an alarm by itself) it is recorded in the evidence and makes the
+    # correspondence sweep deeper (`ctx.deepen`), and only what that sweep finds is reported.
+    function_tie = {}
+    for m, names in getattr(mod, "TIE_THEOREMS", {}).items():
+        ok, log, failed, cmd = common.lake_build([m])
+        cmds.append(cmd)
+        good = False
+        ax = {}
+        if ok:
+            ax, acmd, out = common.audit_axioms(m, names)
+            cmds.append(acmd)
+            good = all(ax.get(n) is not None and set(ax[n]) <= common.ACCEPTED_AXIOMS for n in names)
+        function_tie[m] = {"theorems": names, "checked": good,
+                           "translator": common.function_status()}
+        if good:
+            theorem_names[m] = names
+            obligations += len(names)
+            discharged += len(names)
+            for n in names:
+                thm_info.append({"name": n, "module": m, "checked": True, "axioms": ax.get(n)})
+        elif ctx.thorough:
+            obligations += len(names)
+            ctx.proof_broken.append({"what": "the function translated from the Python source is no longer proved equal to the model function "
+                                             "(agreement theorem does not check)", "module": m, "theorems": names,
+                                     "translator": common.function_status(), "log": (log or "")[-2500:]})
+            for n in names:
+                thm_info.append({"name": n, "module": m, "checked": False, "axioms": None})
+        else:
+            ctx.deepen = True
+            function_tie[m]["quick_tier"] = "not an alarm by itself: the correspondence sweep was deepened instead"
     # 3b. thorough tier: independent re-check of the compiled theorem modules
     rechecked = None
     if ctx.thorough and not ctx.proof_broken and theorem_names:
@@ -178,6 +212,7 @@ def run_property(pid, tier, seed):
         "exhaustive": bool(getattr(ctx, "exhaustive", False)),
         "known_findings": [{"id": k["id"], "reproduced": k["id"] in ctx.rep.known_hits} for k in ctx.rep.known],
         "leanchecker": rechecked,
+        "function_tie": function_tie,
         "proof_broken": ctx.proof_broken,
         "tie_broken": ctx.tie_broken[:5],
     }
